@@ -1,5 +1,6 @@
 import EqsigVerif.Prelude.Wire
 import EqsigVerif.Model.Single
+import EqsigVerif.Model.Multiple
 /-! throw-away evaluator used by `validate.py`: `lake env lean --run Scratch.lean < requests > responses` -/
 open EqsigVerif EqsigVerif.Wire
 open EqsigVerif.Model
@@ -78,7 +79,62 @@ def singleHandlers : List (String × Handler) := [
     | _ => throw "args")
 ]
 
-def table : List (String × Handler) := singleHandlers
+/-- signals travel as one token list with `;` separators: `1 2 3 ; 4 5 6` -/
+def splitSemi : List String → List (List String)
+  | [] => [[]]
+  | t :: ts =>
+    match splitSemi ts with
+    | [] => [[t]]
+    | g :: gs => if t = ";" then [] :: g :: gs else (t :: g) :: gs
+
+/-- empty token list = no signals -/
+def parseSignals (l : List String) : Except String (List (List Rat)) :=
+  if l.isEmpty then pure [] else (splitSemi l).mapM rats
+
+def sepSignals (ss : List (List Rat)) : List String :=
+  " ; ".intercalate (ss.map (fun s => " ".intercalate (outRats s))) |> fun x => [x]
+
+def multipleHandlers : List (String × Handler) := [
+  ("section_average", fun
+    | [dt, st, en, v] => do
+      let dt ← rat1 dt; let st ← rat1 st; let en ← rat1 en; let v ← rats v
+      pure (ofExcept (fun r => [[showRat r]]) (Multiple.sectionAverage v dt st en))
+    | _ => throw "args"),
+  ("section_average_idx", fun
+    | [st, en, v] => do
+      let st ← int1 st; let en ← int1 en; let v ← rats v
+      pure (ofExcept (fun r => [[showRat r]]) (Multiple.sectionAverageIdx v st en))
+    | _ => throw "args"),
+  ("time_indices", fun
+    | [n, dt, st, en] => do
+      let n ← nat1 n; let dt ← rat1 dt; let st ← rat1 st; let en ← rat1 en
+      pure (ofExcept (fun (a, b) => [outInts [a, b]]) (Multiple.timeIndices n dt st en))
+    | _ => throw "args"),
+  ("same_start", fun
+    | [dt, master, st, en, sigs] => do
+      let dt ← rat1 dt; let master ← nat1 master; let st ← rat1 st; let en ← rat1 en
+      let sigs ← parseSignals sigs
+      pure (ofExcept (fun r => [sepSignals r]) (Multiple.sameStart sigs dt master st en))
+    | _ => throw "args"),
+  ("time_match", fun
+    | [master, steps, sigs] => do
+      let master ← nat1 master; let steps ← nat1 steps
+      let sigs ← parseSignals sigs
+      pure (ofExcept (fun (lag, r) => [[toString lag], sepSignals r]) (Multiple.timeMatch sigs master steps))
+    | _ => throw "args"),
+  ("combine", fun
+    | [c, s, ns, we] => do
+      let c ← rat1 c; let s ← rat1 s; let ns ← rats ns; let we ← rats we
+      pure (ofExcept (fun r => [outRats r]) (Multiple.combineAtAngle c s ns we))
+    | _ => throw "args"),
+  ("rotated_degrees", fun
+    | [off, points] => do
+      let off ← rat1 off; let points ← nat1 points
+      pure (.ok [outRats (Multiple.rotatedDegrees off points)])
+    | _ => throw "args")
+]
+
+def table : List (String × Handler) := singleHandlers ++ multipleHandlers
 
 def dispatch (line : String) : String :=
   match line.splitOn "|" with
